@@ -351,11 +351,22 @@ Definition key_states : list bool :=
     key_ok bsc_keyRecentSinger sgH; key_ok eth_EthHeaderIndexKey [KHash; KNum]; key_ok eth_EthRootMainKey [KHash; KNum] ].
 
 (** search aid when a key obligation breaks: all pairs of small argument tuples
-    for a triple-shaped builder; returns colliding argument pairs *)
+    of the builder's signature; returns a colliding pair of argument tuples *)
 Definition small_names : list bytes := [B "aaa"; B "aab"; B "baa"; B "aa1"; B "a1a"; B "1aa"; B "aaa1"; B "1aaa"; B "a11"; B "11a"; B "111"; B "1111"].
-Definition small_nums : list N := [0; 1; 11; 111; 47].
-Definition small_triples : list args :=
-  flat_map (fun s => flat_map (fun d => map (fun n => [VS s; VS d; VN n]) small_nums) small_names) small_names.
+Definition small_nums : list N := [0; 1; 11; 111; 47; 4294967296; 4294967297].
+
+Definition small_vals (k : kind) : list val :=
+  match k with
+  | KStr | KRaw => map VS small_names
+  | KNum => map VN small_nums
+  | KHash => [VS (repeat x00 32); VS (repeat x01 32)]
+  end.
+
+Fixpoint small_args (sg : list kind) : list args :=
+  match sg with
+  | [] => [[]]
+  | k :: r => flat_map (fun v => map (cons v) (small_args r)) (small_vals k)
+  end.
 
 Fixpoint find_collision_in (f : fmt) (l : list args) : option (args * args) :=
   match l with
@@ -365,4 +376,14 @@ Fixpoint find_collision_in (f : fmt) (l : list args) : option (args * args) :=
       | Some b => Some (a, b)
       | None => find_collision_in f r
       end
+  end.
+
+(** flat numeric rendering for the driver: string = 0, length, bytes; number = 1, n; 2 separates the two tuples *)
+Definition encode_args (a : args) : list N :=
+  flat_map (fun v => match v with VS s => 0 :: N.of_nat (length s) :: map Byte.to_N s | VN n => [1; n] end) a.
+
+Definition collision_search (f : fmt) (sg : list kind) : list N :=
+  match find_collision_in f (small_args sg) with
+  | Some (a, b) => encode_args a ++ [2] ++ encode_args b
+  | None => []
   end.
